@@ -1,5 +1,5 @@
 """Registry: which stages decide which property (see DESIGN.md section 5)."""
-from checklib import PROPS, make_prop, ES, GS, tlc_only_stage, refstore_stage
+from checklib import PROPS, make_prop, ES, GS, tlc_only_stage, refstore_stage, session_stage
 from tracestages import TE, api_stage
 
 COMMON_ASSUME = [
@@ -33,7 +33,7 @@ PROPS["C10"] = make_prop("C10", [ES("C10", "C10", "nodes")],
 PROPS["C11"] = make_prop("C11", [slice_loop_stage, ES("C11", "C11", "order")],
     "all (start,end,step) over a window around the array length plus the +-BIG abstraction of +-(2^53-1) x all lengths; all indices; also under a descendant segment; plus the loop machine SliceLoop.tla on the spec side; " + NT,
     COMMON_ASSUME + ["BIG abstraction: an integer beyond the window behaves like its saturated representative (DESIGN 3.1)"])
-PROPS["C12"] = make_prop("C12", [ES("C12", "C01", "entry"), ES("C12", "C05", "entry")],
+PROPS["C12"] = make_prop("C12", [lambda ev, tier, seed: session_stage(ev, "C12", tier, seed), ES("C12", "C01", "entry"), ES("C12", "C05", "entry")],
     "the three entry points, the prepared query and a repetition compared position by position on every behaviour; document snapshot before/after; " + NT, COMMON_ASSUME)
 PROPS["C14"] = make_prop("C14", [ES("C14", "C14", "nodes")],
     "five extension functions over all (x, L) pairs of element values, arrays of them, non-arrays and missing members; also negated and with $-rooted argument; " + NT,
